@@ -41,6 +41,7 @@ theorem tie_eachCollection_strings : eachCollectionStrings =
    "modified_at",
    "portable_data_hash",
    "replication_desired",
+   "storage_classes_desired",
    "GET",
    "arvados/v1/collections",
    "BUG: Last collection on the page (%s) has no modified_at timestamp; cannot make progress",
